@@ -1,4 +1,7 @@
 import CV.Proofs.InvWaitMain
+import CV.Proofs.InvWait2Wit
+import CV.Proofs.InvWait2Count
+import CV.Proofs.InvWait2Tasks
 /-
 C06 — call()/wait() resume the caller exactly once with the result, leaving no residue.
 
@@ -200,5 +203,203 @@ example : W6ReachW exampleInit.hs.length exampleInit (startOf (envChange example
 /-- … and `do removeHandler(h)` of the pre-declared handler is an admissible external operation -/
 example : ExtOp.w6ok exampleInit.hs.length (.doAct 0 (.rmH 0 none)) := by
   simp [ExtOp.w6ok, Act.w6_hOk, exampleInit]
+
+
+/-! ## Part 3 (second round): never both, the other direction; the time-out is not early, counted -/
+
+/-- **no_timeout_after_resume** (`never both`, the other direction), PARTIAL.
+    After the resumption step of `w` no later configuration of the session invokes `w`'s `_on_tick` closure, none
+    contains a `TimeoutError` carrier (`GenRec.exc w`) and none performs the task step of such a carrier (the only
+    step that logs `.timeout`, see `timeout_needs_exc`) - under two hypotheses:
+      (a) `W6BNoStaleTick c w`: at the resumption step no `_dispatcher` in flight still holds `w`'s `_on_tick`
+          handler in the list it iterates over;
+      (b) `W6BLater` = `W6Later` + `W6BLive` at every step taken: a `_dispatcher` step hands only declared handler
+          ids to its loop and a temporary tick handler only while it is installed (cache liveness, the C01 property).
+    FULL STATEMENT: the same without (a) and with `W6Later` in place of `W6BLater`.
+    OBSTACLE for (a): it is FALSE of the model and of the real code (`no_timeout_after_resume_witness`): a handler of
+    `generate_events` that runs the task loop (`self.tick()`; `stop()` while running but not executing runs three inline
+    ticks) lets `_on_done` + the resumption happen while the enclosing `_dispatcher` still iterates over the handler
+    list computed before `_on_done` removed the tick handler; the stale `_on_tick` finds the countdown at 0 and
+    registers the TimeoutError task although the caller already has the result.  NEEDED CHANGE (code + model):
+    `_on_tick` must do nothing once `state.flag` is set (or check that `_on_done_handler` is still installed before
+    registering the task).
+    OBSTACLE for (b): `W6InitWait` does not constrain the handler cache / `_globals`; C01 (`dispatch_exact_set`) proves
+    (b) for dispatchers running on a root from `InitForest ∧ InitHandlers ∧ InitCache`; joining the two needs "a
+    `.dispatcher r` frame always runs on a root" and "no temporary handler in `_globals`", which are not proved yet. -/
+theorem no_timeout_after_resume_partial (s0 : St) (hi : W6InitWait s0) (c : Cfg) (h : W6ReachW s0.hs.length s0 c)
+    (w : Nat) (hr : W6ResumesW c w) (hstale : W6BNoStaleTick c w) (c' : Cfg)
+    (hl : W6BLater s0.hs.length (step c) c') :
+    (∀ r hh e k, c'.stack = .invoke r hh e :: k → (c'.st.handler hh).kind ≠ .waitTick w) ∧
+    (∀ g b, c'.st.gen g ≠ .exc w b) ∧
+    (∀ r t k b, c'.stack = .ptBody r t :: k → c'.st.gen t.g ≠ .exc w b) :=
+  w6b_no_timeout_after_resume (h.cinv hi) (h.excFin hi) w hr hstale hl
+
+/-- the excluded case is real: a session from `w6b_s0` (one hand-driven manager; `foo` = `x = yield call(bar(),
+    timeout=0); yield; yield; yield`, `bar` = `return 7`, a `generate_events` handler that calls `stop()`) in which wait
+    state 0 is resumed with the result 7 while a `_dispatcher` still holds its `_on_tick` handler, a later configuration
+    invokes that `_on_tick` with the countdown at 0, and a still later one throws `TimeoutError` into the same caller -/
+theorem no_timeout_after_resume_witness :
+    W6InitWait w6b_s0 ∧ ∃ c c' c'', W6ReachW w6b_s0.hs.length w6b_s0 c ∧ W6ResumesW c 0 ∧ ¬ W6BNoStaleTick c 0 ∧
+      Entry.resumed 0 0 1 (.single (.val 7)) false ∈ (step c).st.log ∧
+      W6Later w6b_s0.hs.length (step c) c' ∧
+      (∃ r hh e k, c'.stack = .invoke r hh e :: k ∧ c'.exn = none ∧ (c'.st.handler hh).kind = .waitTick 0 ∧
+        (c'.st.wait 0).timeout = 0) ∧
+      W6Later w6b_s0.hs.length (step c) c'' ∧
+      (∃ r t k, c''.stack = .ptBody r t :: k ∧ c''.exn = none ∧ c''.st.gen t.g = .exc 0 false) ∧
+      Entry.timeout 0 0 false ∈ (step c'').st.log ∧ Entry.timeout 0 0 false ∉ c''.st.log :=
+  ⟨w6b_s0_init, w6b_cR, w6b_cT, w6b_cX, w6b_cR_reach, w6b_isResume_spec _ _ w6b_cR_resume,
+   w6b_hasStale_spec _ _ w6b_cR_stale, w6b_cR_logs, w6b_cT_later, w6b_isTick0_spec _ _ w6b_cT_tick0,
+   w6b_cX_later, w6b_isExcStep_spec _ _ w6b_cX_exc, w6b_cX_logs.1, w6b_cX_logs.2⟩
+
+/-- **exc_only_when_finished**: a `TimeoutError` carrier of `w` exists only when `w` is finished (phase 4) - in
+    particular never at or before the resumption step of `w` (which happens in phase 3). -/
+theorem exc_only_when_finished (s0 : St) (hi : W6InitWait s0) (c : Cfg) (h : W6ReachW s0.hs.length s0 c)
+    (g w : Nat) (b : Bool) (hg : c.st.gen g = .exc w b) : w6_phase c.st w = 4 :=
+  h.excFin hi g w b hg
+
+/-- **timeout_not_early**, counted across steps.  Let `c` be the configuration in which a user generator executes
+    `yield call(…, timeout=n)` / `yield wait(…, timeout=n)` (`W6BBirth c n`); the wait state it creates is
+    `w = c.st.waits.length`.  In every later configuration of the session in which a `TimeoutError` carrier of `w`
+    exists, the log contains at least `n + 1` invocations (`.hinv _ 3 (task w)` entries) of `w`'s own `_on_tick`
+    closure - one per dispatched `generate_events`, i.e. per loop iteration.  (`W6BInitLog s0`: the ghost log starts
+    empty.) -/
+theorem timeout_not_early (s0 : St) (hi : W6InitWait s0) (hl0 : W6BInitLog s0) (c : Cfg)
+    (hr : W6ReachW s0.hs.length s0 c) (n : Nat) (hb : W6BBirth c n) (c' : Cfg)
+    (hl : W6Later s0.hs.length (step c) c') (g' : Nat) (b : Bool)
+    (hexc : c'.st.gen g' = .exc c.st.waits.length b) :
+    n + 1 ≤ w6b_tickCount c'.st c.st.waits.length :=
+  w6b_timeout_not_early hi hl0 hr hb hl hexc
+
+/-- … hence the step that logs `.timeout` (the task step of an unfired carrier `.exc w' false`) comes after at least
+    `n + 1` `_on_tick` invocations when `w'` is the wait state born in `c`. -/
+theorem timeout_entry_not_early (s0 : St) (hi : W6InitWait s0) (hl0 : W6BInitLog s0) (c : Cfg)
+    (hr : W6ReachW s0.hs.length s0 c) (n : Nat) (hb : W6BBirth c n) (c' : Cfg)
+    (hl : W6Later s0.hs.length (step c) c') (es : List Entry) (hes : (step c').st.log = es ++ c'.st.log)
+    (pe ph : Nat) (caught : Bool) (hx : Entry.timeout pe ph caught ∈ es) :
+    ∃ r t k w', c'.stack = .ptBody r t :: k ∧ c'.exn = none ∧ c'.st.gen t.g = .exc w' false ∧
+      (w' = c.st.waits.length → n + 1 ≤ w6b_tickCount c'.st w') :=
+  w6b_timeout_entry_not_early hi hl0 hr hb hl hes hx
+
+/-- the countdown potential `#(_on_tick invocations of w) + w.timeout − [a carrier of w exists]` never decreases
+    along a session (it is constant while the countdown is positive) -/
+theorem tick_potential_monotone (s0 : St) (hi : W6InitWait s0) (c : Cfg) (h : W6ReachW s0.hs.length s0 c) (c' : Cfg)
+    (hl : W6Later s0.hs.length c c') (w : Nat) (hw : w < c.st.waits.length) :
+    w6b_tickCount c.st w ≤ w6b_tickCount c'.st w ∧ w6b_phi c.st w ≤ w6b_phi c'.st w :=
+  ⟨(W6Later.w6b_mono (h.cinv hi) hl w hw).1, (W6Later.w6b_mono (h.cinv hi) hl w hw).2.2⟩
+
+/-- hypothesis (a) holds whenever the resumption happens outside every handler loop (the ordinary case: the task loop
+    of a `tick()` that was not called from inside a handler) -/
+theorem no_stale_tick_outside_handlers (c : Cfg) (w : Nat) (h : w6b_pending c.stack = []) : W6BNoStaleTick c w := by
+  intro x hx; rw [h] at hx; cases hx
+
+/-! ### non-vacuity of the second-round hypotheses -/
+
+/-- (a) holds whenever no handler loop is in flight, e.g. at the start of every external operation -/
+example : W6BNoStaleTick (startOf (envChange exampleInit 0 []) (.tick 0)) 0 := by
+  intro h hh; simp [startOf, startTick, Cfg.start, Frame.w6b_pend] at hh
+
+/-- (b) constrains `_dispatcher` steps only -/
+example : W6BLive (startOf (envChange exampleInit 0 []) (.tick 0)) := by
+  intro r e rem k hs hst; simp [startOf, startTick, Cfg.start] at hst
+
+example : W6BLater exampleInit.hs.length (startOf (envChange exampleInit 0 []) (.tick 0))
+    (startOf (envChange exampleInit 0 []) (.tick 0)) := W6BLater.refl _
+
+example : W6BInitLog exampleInit := rfl
+example : W6BInitLog w6b_s0 := rfl
+
+/-- a generator about to execute `yield call(tmpl 0, timeout=2)` -/
+example : W6BBirth { st := { gens := [.user 0 0 0 [.call 0 none (some 2) false] 0 none false] }, stack := [.stepGen 0] } 2 :=
+  ⟨0, [], 0, 0, 0, _, [], 0, none, false, rfl, rfl, rfl, Or.inl ⟨_, _, _, rfl⟩⟩
+
+
+/-! ## Part 4 (second round): the caller is not lost; transient tasks -/
+
+/-- **caller_completes**, PARTIAL.  In the resumption step of `w` (top frame `.ptBody r t`, `t.g` is `w`'s waitEvent
+    generator, its `_done` handler can be removed) the wait state has recorded an event `src`, and if the task's
+    parent is a live user generator `p` then after the step `p` is RUNNING (`.stepGen p` on top of `.ptParent r t p
+    false`), its step counter advanced, the resumption task is erased from the task set of `r`'s root, and the log gains
+    exactly `.resumed pe ph src value errors`.
+    FULL STATEMENT: without the hypotheses `t.parent = some p` and `c.st.gen p = .user …`.  OBSTACLE: the second is
+    FALSE of the model (and of the code) because of the finding of `no_timeout_after_resume_witness`: the stale
+    `_on_tick` of an earlier, already resumed wait state `w'` of the same caller registers a TimeoutError task whose
+    (uncaught) task step kills `p` (`setGen p .dead`) while `p` is suspended in `w`; `Cfg.ptBodyWait` then drops the
+    resumption task (`| _ => c.pop`), i.e. `waitEvent`'s `yield CallValue` is sent into a finished generator.  The
+    first (`t.parent ≠ none` for the task held in a `ptBody` frame) is true but only proved for tasks in task sets
+    (`wait_task_has_parent`). -/
+theorem caller_completes_partial (s0 : St) (hi : W6InitWait s0) (c : Cfg) (h : W6ReachW s0.hs.length s0 c)
+    (w r : Nat) (t : Task) (k : List Frame) (hs : c.stack = .ptBody r t :: k) (hx : c.exn = none)
+    (hg : c.st.gen t.g = .wait w)
+    (hok : (c.st.removeHandler (c.st.wait w).hDone (some ((c.st.wait w).evName.child sfxDone))).1 = true) :
+    ∃ src, (c.st.wait w).event = some src ∧
+      ∀ p, t.parent = some p → ∀ pe ph o rest st pc sd, c.st.gen p = .user pe ph o rest st pc sd →
+        (step c).stack = .stepGen p :: .ptParent r t p false :: k ∧ (step c).exn = none ∧
+        (step c).st.gen p = .user pe ph o rest (st + 1) pc true ∧
+        (∀ x, ((step c).st.comp x).tasks =
+          if x = c.st.rootOf r then (c.st.comp x).tasks.erase t else (c.st.comp x).tasks) ∧
+        (step c).st.log = .resumed pe ph src (c.st.ev src).val.view (c.st.ev src).val.errors :: c.st.log :=
+  w6b_caller_completes_partial (h.cinv hi) w r t k hs hx hg hok
+
+/-- … and when the resumed caller yields a plain value again, it is back in the task set as an ordinary task
+    `(event, caller, None)` (of the root of `r`, whenever that root is a declared component); when it yields another
+    `call`/`wait`, it becomes the `parentGen` of that wait state. -/
+theorem caller_registered_again (c : Cfg) (r : Nat) (t : Task) (p : Nat) (k : List Frame)
+    (hs : c.stack = .ptParent r t p false :: k) (hx : c.exn = none) :
+    (∀ v, c.ret.yield = .plain v →
+      (step c).stack = k ∧ (step c).exn = none ∧
+      ∀ s1, s1 = (c.st.modEv t.e fun x => { x with waiting := x.waiting - 1 }).setValueOpt t.e v →
+        s1.rootOf r < s1.comps.length → (⟨t.e, p, none⟩ : Task) ∈ ((step c).st.comp (s1.rootOf r)).tasks) ∧
+    (∀ w2, c.ret.yield = .sub w2 → w2 < c.st.waits.length →
+      (step c).stack = k ∧ (step c).exn = none ∧
+      ((step c).st.wait w2).parentGen = p ∧ ((step c).st.wait w2).taskEvent = t.e) := by
+  refine ⟨fun v hy => ?_, fun w2 hy hw2 => ?_⟩
+  · obtain ⟨a, b, _, d⟩ := w6b_ptParent_plain c r t p k v hs hx hy
+    exact ⟨a, b, d⟩
+  · obtain ⟨a, b, _, d⟩ := w6b_ptParent_sub c r t p k w2 hs hx hy hw2
+    exact ⟨a, b, d⟩
+
+/-- **task residue, transient form** (the naive "all waits finished ∧ empty stack ⇒ no wait/exc task" is false: after
+    a time-out the TimeoutError task stays registered until the next tick).  (1) Task sets are duplicate-free.  (2) The
+    task step of a waitEvent generator or of a TimeoutError carrier always consumes its task: afterwards `t` is gone
+    from the task set of its root, and the only task the step can add is the caller `(t.e, p, None)`. -/
+theorem transient_task_consumed (s0 : St) (hi : W6InitWait s0) (c : Cfg) (h : W6ReachW s0.hs.length s0 c)
+    (r : Nat) (t : Task) (k : List Frame) (hs : c.stack = .ptBody r t :: k) (hx : c.exn = none)
+    (hgen : (∃ w, c.st.gen t.g = .wait w) ∨ (∃ w b, c.st.gen t.g = .exc w b)) :
+    (∀ x, (c.st.comp x).tasks.Nodup) ∧
+    t ∉ ((step c).st.comp (c.st.rootOf r)).tasks ∧
+    (∀ x t', t' ∈ ((step c).st.comp x).tasks →
+      t' ∈ (c.st.comp x).tasks ∨ ∃ p, t.parent = some p ∧ t' = ⟨t.e, p, none⟩) := by
+  have hnd := w6b_tasks_nodup hi.tasks h.reach
+  obtain ⟨a, b⟩ := w6b_task_consumed c r t k hs hx hgen
+  exact ⟨hnd, b (hnd _), a⟩
+
+/-- **wait/exc tasks come only from the temporary handlers**: a task that is new in a task set after a step and whose
+    generator is `w`'s waitEvent generator was registered by `w`'s own `_on_done` closure; one whose generator is a
+    TimeoutError carrier of `w` (and that has a parent) by `w`'s own `_on_tick` closure at countdown 0.  Between such
+    invocations the set of wait/exc tasks only shrinks.  (PARTIAL in the side condition `t'.parent ≠ none` of the
+    second clause: excluding that `hApply`/`StopIteration` re-register an existing carrier id as an ordinary task
+    needs a "generator references are not carriers" frame invariant that `W6CInv` does not contain.) -/
+theorem wait_exc_tasks_only_from_handlers_partial (s0 : St) (hi : W6InitWait s0) (c : Cfg)
+    (h : W6ReachW s0.hs.length s0 c) (x : Nat) (t' : Task)
+    (hnew : t' ∈ ((step c).st.comp x).tasks) (hold : t' ∉ (c.st.comp x).tasks) :
+    (∀ w, (step c).st.gen t'.g = .wait w →
+      ∃ r hh e k, c.stack = .invoke r hh e :: k ∧ c.exn = none ∧ (c.st.handler hh).kind = .waitDone w ∧
+        t' = ⟨(c.st.wait w).taskEvent, (c.st.wait w).task, some (c.st.wait w).parentGen⟩) ∧
+    (∀ w b, (step c).st.gen t'.g = .exc w b → t'.parent ≠ none →
+      ∃ r hh e k, c.stack = .invoke r hh e :: k ∧ c.exn = none ∧ (c.st.handler hh).kind = .waitTick w ∧
+        (c.st.wait w).timeout = 0 ∧ b = false ∧
+        t' = ⟨(c.st.wait w).taskEvent, c.st.gens.length, some (c.st.wait w).parentGen⟩) :=
+  w6b_wait_exc_tasks_only_from_handlers (h.cinv hi) x t' hnew hold
+
+/-- **which transient tasks can exist when**: a registered task of `w`'s waitEvent generator has a parent and `w.flag`
+    is set; a TimeoutError carrier of `w` exists only when `w` is finished (phase 4) with the countdown at 0. -/
+theorem transient_tasks_by_phase (s0 : St) (hi : W6InitWait s0) (c : Cfg) (h : W6ReachW s0.hs.length s0 c) :
+    (∀ x t, t ∈ (c.st.comp x).tasks → ∀ w, c.st.gen t.g = .wait w →
+      t.parent.isSome = true ∧ (c.st.wait w).flag = true ∧ 3 ≤ w6_phase c.st w) ∧
+    (∀ g w b, c.st.gen g = .exc w b → w6_phase c.st w = 4 ∧ (c.st.wait w).timeout = 0) := by
+  refine ⟨fun x t ht w hg => ?_, fun g w b hg => ?_⟩
+  · obtain ⟨a, b⟩ := w6_wait_task_needs_flag (h.cinv hi) x t ht w hg
+    exact ⟨w6b_wait_task_has_parent hi h x t ht w hg, a, b⟩
+  · exact ⟨h.excFin hi g w b hg, (h.w6b_excInv hi g w b hg).2⟩
 
 end CV.C06
